@@ -1,5 +1,6 @@
 SPECIFICATION Spec
 CONSTANTS MaxEdit = 3  MaxInv = 4  MaxKill = 0  MaxFail = 0  GenDepth = 0
+CONSTANT Flags = {"plain"}
 CONSTANT Weak = {}
 VIEW view
 INVARIANT IncrementalEqClean
